@@ -1220,15 +1220,19 @@ func c19Xid(r *core.Run) {
 		cmp := false
 		originFollowHelpers = true // the address may be cut out of the xid by a helper returning (address, ok)
 		defer func() { originFollowHelpers = false }()
-		ast.Inspect(xp.Decl.Body, func(n ast.Node) bool {
-			if be, ok := n.(*ast.BinaryExpr); ok && be.Op == token.EQL {
-				a, b := origin(xp, be.X, 4), origin(xp, be.Y, 4)
-				if (strings.Contains(a, "RemoteAddr(") && strings.Contains(b, "strings.Split(")) || (strings.Contains(b, "RemoteAddr(") && strings.Contains(a, "strings.Split(")) {
-					cmp = true
+		// (the comparison may sit in a helper of the package that is handed the address)
+		for _, g := range withCallees(w, xp, 2) {
+			g := g
+			ast.Inspect(g.Decl.Body, func(n ast.Node) bool {
+				if be, ok := n.(*ast.BinaryExpr); ok && be.Op == token.EQL {
+					a, b := originVia(xp, g, be.X, 4), originVia(xp, g, be.Y, 4)
+					if (strings.Contains(a, "RemoteAddr(") && strings.Contains(b, "strings.Split(")) || (strings.Contains(b, "RemoteAddr(") && strings.Contains(a, "strings.Split(")) {
+						cmp = true
+					}
 				}
-			}
-			return true
-		})
+				return true
+			})
+		}
 		r.Sites++
 		r.Check(cmp, "C19.xid", core.ShortKey(xp.Obj)+" matches ip:port of the xid against the session's remote address", w.Pos(xp.Decl.Pos()), "ip:port == RemoteAddr()", "the XID policy no longer compares the xid's ip:port with the session's remote address")
 	}
